@@ -474,7 +474,10 @@ def run(ctx):
                 ctx.violation(oracle_key(what, grp) if oracle_key else name + ":" + what.split()[0],
                               "property fails on the implementation: " + what, {"stream": name, "ops": grp, "oracle": o})
             return impl, ["" for _ in impl]
-        n, impl, model, orc = ctx.correspond(name, h, drv, ops, cmp=cmp, group_start=group_start, oracle_key=oracle_key)
+        # xs / rec: the model is the published fit of the shipped table rows (sigma_is_fit,
+        # sigma_is_sum_of_fits; recombination fits likewise) -> a disagreement is a failing input
+        n, impl, model, orc = ctx.correspond(name, h, drv, ops, cmp=cmp, group_start=group_start, oracle_key=oracle_key,
+                                             model_is_spec=("differs-from-published-fit" if name in ("xs", "rec") else None))
         t = Tally(ctx)
         t.add(ops, impl, model, nontrivial, key)
         tallies[name] = t
